@@ -166,6 +166,66 @@ class Report(object):
         return ob, di
 
 
+class Borrowed(object):
+    """A clause another property's check decides, run for this property:
+    the findings whose construct passes `keep` are reported under this
+    property's rule id; everything else the borrowed rules do (their own
+    obligations, notes, floors) is left out.  If the borrowed analysis cannot
+    follow the tree, nothing is claimed for this clause here (its own check
+    says so)."""
+
+    def __init__(self, report, rid, desc, keep):
+        self.r = report
+        self.rid = report.rule(rid, desc)
+        self.keep = keep
+        self.pid = report.pid
+        self.tier = report.tier
+        self.violations = []
+        self.n_ok = 0
+        self.explanation = ''
+        self.trusted_base = []
+        self.assumptions = []
+
+    def rule(self, rid, desc):
+        return rid
+
+    def ok(self, rid, what=None, n=1):
+        self.n_ok += n
+
+    def violation(self, rid, construct, file, node, func, msg, extra=None):
+        if self.keep(rid, construct):
+            self.violations.append(self.r.violation(
+                self.rid, construct, file, node, func,
+                '%s [clause shared with %s]' % (msg, rid), extra))
+
+    def info(self, rid, msg):
+        pass
+
+    def note(self, kind, item=None):
+        pass
+
+    def floor(self, what, measured, minimum):
+        if measured < minimum:
+            raise AnalysisError('borrowed clause: %s below its floor' % what)
+
+    def done(self, what):
+        if not self.violations:
+            self.r.ok(self.rid, what)
+
+
+def borrow(report, rid, desc, keep, fn):
+    """Run fn(sub_report) with a Borrowed adapter; an analysis error of the
+    borrowed rules is not this property's (its own check reports it)."""
+    sub = Borrowed(report, rid, desc, keep)
+    try:
+        fn(sub)
+    except AnalysisError:
+        report.note('borrowed clause not decided here', rid)
+        return sub
+    sub.done(desc)
+    return sub
+
+
 def load_known_findings():
     path = os.path.join(VERIF, 'known_findings.json')
     if not os.path.exists(path):
